@@ -65,10 +65,17 @@ type c13Case struct {
 	// ClientCert (https): the client presents a certificate, which the server verifies (mutual TLS): the handler's
 	// TLS info carries it, and the chains it was verified through
 	ClientCert bool `json:",omitempty"`
+	// ErrStale (Creds "error"): the failing credential returns its cached (stale) metadata next to the error
+	ErrStale bool `json:",omitempty"`
+	// Redirect (https): the TLS endpoint answers every request with a 307 redirect to the plain-http server (a
+	// TLS-terminating gateway that builds absolute plain-scheme URLs): whatever becomes of the call, nothing of a
+	// credential that requires transport security ever arrives over plain http
+	Redirect bool `json:",omitempty"`
 }
 
 type testCreds struct {
 	md     map[string]string
+	stale  map[string]string
 	secure bool
 	err    error
 	calls  atomic.Int32
@@ -77,7 +84,8 @@ type testCreds struct {
 func (c *testCreds) GetRequestMetadata(ctx context.Context, uri ...string) (map[string]string, error) {
 	c.calls.Add(1)
 	if c.err != nil {
-		return nil, c.err
+		// (with ErrStale: together with what it had cached - the error is what counts)
+		return c.stale, c.err
 	}
 	return c.md, nil
 }
@@ -202,6 +210,7 @@ func propC13(c c13Case) *Outcome {
 	}
 	var conn grpc.ClientConnInterface
 	var crt *countingRT
+	var plainArrivals atomic.Int32
 	bareTransport := false
 	wantAddr := ""
 	if c.Carrier == cInproc {
@@ -210,6 +219,18 @@ func propC13(c c13Case) *Outcome {
 	} else {
 		c13Servers()
 		h := newHTTPHandlerOnly(c.Carrier, newServiceDesc(), svc)
+		if c.Redirect {
+			o.class("tls-endpoint-redirects-to-plain-http")
+			inner := h
+			h = http.HandlerFunc(func(w http.ResponseWriter, r *http.Request) {
+				if r.TLS != nil {
+					http.Redirect(w, r, c13Plain.URL+r.URL.Path, http.StatusTemporaryRedirect)
+					return
+				}
+				plainArrivals.Add(1)
+				inner.ServeHTTP(w, r)
+			})
+		}
 		c13Switch.mu.Lock()
 		c13Switch.h = h
 		c13Switch.count = 0
@@ -292,6 +313,10 @@ func propC13(c c13Case) *Outcome {
 		creds = &testCreds{md: c.CredMD, secure: true}
 	case "error":
 		creds = &testCreds{err: errC13Cred}
+		if c.ErrStale {
+			o.class("credential-error-with-stale-metadata")
+			creds.stale = map[string]string{"authorization": "Bearer expired"}
+		}
 	}
 	if creds != nil {
 		if c.First != "" {
@@ -354,6 +379,16 @@ func propC13(c c13Case) *Outcome {
 	})
 	if stall != "" {
 		return o.failf("stall: %s", stall)
+	}
+	if c.Redirect {
+		o.Observed = map[string]interface{}{"err": errStr(err), "requests_that_reached_the_plain_server": plainArrivals.Load()}
+		if n := plainArrivals.Load(); n > 0 {
+			return o.failf("%s over https with credentials that require transport security, endpoint answered 307 to an http:// location: %d request(s) went on to the plain-http server", c.Carrier, n)
+		}
+		if err == nil {
+			return o.failf("%s: the endpoint answered with a redirect, the call is reported as success", c.Carrier)
+		}
+		return o
 	}
 	// the credentials' metadata goes into the request, not into the caller's context: what the caller attached
 	// is what its context still says, whatever the outcome of the call
@@ -572,6 +607,7 @@ func genC13(t *rapid.T) c13Case {
 	c.ReusePeer = c.PeerOpt > 0 && rapid.IntRange(0, 2).Draw(t, "reusepeer") == 0
 	c.CtxPeer = rapid.IntRange(0, 3).Draw(t, "ctxpeer") == 0
 	c.ClientCert = c.TLS && rapid.IntRange(0, 2).Draw(t, "clientcert") == 0
+	c.ErrStale = c.Creds == "error" && rapid.Bool().Draw(t, "errstale")
 	switch rapid.IntRange(0, 7).Draw(t, "forwarded") {
 	case 0:
 		// proxy-style headers are ordinary metadata to this transport: they say nothing about the peer
@@ -620,6 +656,7 @@ func genC13(t *rapid.T) c13Case {
 			c.CredMD["x-forwarded-for"] = "203.0.113.9"
 		}
 	}
+	c.Redirect = c.TLS && c.Creds == "secure" && c.Host == "" && rapid.IntRange(0, 2).Draw(t, "redirect") == 0
 	return c
 }
 
